@@ -650,6 +650,10 @@ class MainTransformer(object):
         target = self._transformer.resolve_aliases(target)
         target = node.type if target is None else target
 
+        if isinstance(target, (ast.Enum, ast.Bitfield)):
+            # Enumerations and flags are passed by value
+            return (node.type.ctype or '').endswith('*')
+
         return (not isinstance(target, ast.Type) or
                 target not in ast.BASIC_TYPES or
                 (target.ctype or '').endswith('*'))
